@@ -83,7 +83,8 @@ def run(cx):
     cx.ob("R07b", ap, len(marks) == 1, "placing and marking done happen together" if len(marks) == 1 else "append to sorted_repos is not paired with done_repos.add of the same repository", stmt=norm(enclosing_stmt(ap)) + " [paired]")
     all_marks = [c for c in walk_local(init) if isinstance(c, ast.Call) and call_name(c) == "add" and norm(c.func.value) == "done_repos"]
     cx.ob("R07b", init, len(all_marks) == 1, "a repository is marked done only when it is placed" if len(all_marks) == 1 else "done_repos is written elsewhere too", stmt="single mark site")
-    skip = any(isinstance(s, ast.If) and norm(s.test) == f"{cur} in done_repos" and any(isinstance(x, ast.Continue) for x in s.body) for s in walk_local(init))
+    skip = any(isinstance(e, ast.Compare) and len(e.ops) == 1 and norm(e.left) == cur and norm(e.comparators[0]) == "done_repos" and
+               (isinstance(e.ops[0], ast.In) and not pol or isinstance(e.ops[0], ast.NotIn) and pol) for e, pol in fs)
     cx.ob("R07b", init, skip, "a repository already placed is skipped (placed once)" if skip else "repositories already placed are not skipped", stmt="placed once")
     fin = [a for a in init.body if isinstance(a, ast.Assert) and norm(a.test) == "len(self.sorted_repos) == len(self.repos)"]
     cx.ob("R07b", fin[0] if fin else init, bool(fin), "every repository of the collection is placed" if fin else "completeness assertion removed")
